@@ -51,7 +51,7 @@ structure Out where
 deriving Repr
 
 inductive Op where
-  | ins (key ver weight : Nat) (hint : Hint) (phantom : Bool)
+  | ins (key ver weight : Nat) (hint : Hint) (phantom : Bool) (loc : Loc := .default) (age : Age := .fresh)
   | get (key : Nat)
   | touch (key : Nat)
   | contains (key : Nat)
@@ -179,8 +179,8 @@ def evictedOf (l : List (Reason × Rec)) : List Rec :=
   (l.filter fun x => x.1 = Reason.evict).map (·.2)
 
 def Cache.step (c : Cache σ) : Op → Cache σ × Out
-  | .ins key ver weight hint phantom =>
-    let r : Rec := { id := c.nextId, key, hash := cfg.H key, ver, weight, hint, phantom }
+  | .ins key ver weight hint phantom loc age =>
+    let r : Rec := { id := c.nextId, key, hash := cfg.H key, ver, weight, hint, phantom, loc, age }
     let i := cfg.shardOf r.hash
     match c.shards[i]? with
     | none => (c, { ret := .bad })
@@ -317,7 +317,7 @@ namespace Foyer
 that no completed remove of `k`, clear, or disk-only insert of `k` has followed. -/
 def regStep (k : Nat) (cur : Option Rec) (op : Op) (out : Out) : Option Rec :=
   match op with
-  | .ins key _ _ _ phantom =>
+  | .ins key _ _ _ phantom _ _ =>
     if key = k then
       (if phantom then none else match out.ret with
         | .handle r => some r
